@@ -416,7 +416,118 @@ def needle_cores(run, m, F, E):
             und.append('scan not explored (%d back edges, %d found, %d null)' % (nb, nfound, nnull))
         verdict(run, 'R07.2', f, p2, und, 'compares (hit, needle, needle_size) only when it fits; gives up only when it does not; result has comparison 0', 'needle core')
         verdict(run, 'R07.3', f, p3, und, 'resumes one unit after a rejected candidate', 'needle core')
+        window_reads(run, m, F, E, f, ci)
     return n
+
+
+def threshold_sizes(m, F, f, limit=64):
+    """Needle sizes worth an exact run: 1, 2, 3 and c, c + 1 for every small constant c that an integer comparison, a select or a
+    min / max call in the core or in a library function reachable from it mentions (a scratch capacity, a block size)."""
+    out = set([1, 2, 3])
+    fns = [f] + [m.func(t) for t in F.reachable_from([f.name]) if m.has(t) and t != f.name and m.is_lib(m.func(t))]
+    for g in fns:
+        for i in g.all_insts():
+            if i.op in ('icmp', 'select', 'call', 'invoke', 'store', 'alloca'):
+                def walk(a):
+                    if isinstance(a, (list, tuple)):
+                        if len(a) >= 2 and a[0] == 'i' and isinstance(a[1], int):
+                            if 4 <= a[1] < limit:
+                                out.add(a[1])
+                                out.add(a[1] + 1)
+                        else:
+                            for x in a:
+                                walk(x)
+                walk(i.a)
+    return sorted(out)
+
+
+def window_reads(run, m, F, E, f, ci):
+    """R07.6: a position is reported as an occurrence only after every unit of the window [position, position + |needle|) was
+    looked at.  The core is interpreted exactly (no loop abstraction) for a haystack that is exactly one window long, for the needle
+    sizes of threshold_sizes(); on a path that returns the position, the haystack units read - by the character search at its hit, by
+    the comparison primitives over their range, by loads of the core or its helpers - must cover the window.  A unit never read
+    cannot influence the answer: a haystack that differs from the needle only there is reported as an occurrence."""
+    probs, und, nruns, nfound = [], [], 0, 0
+    for ns in threshold_sizes(m, F, f):
+        class XH(SearchHooks):
+            unroll = ns + 3
+            widen_on_entry = False
+            max_paths = 3000
+            split_sign = False              # (which units are read does not depend on their sign; splitting would fork 2^n paths)
+
+            def on_access(self, I, st, inst, kind, p, nbytes):
+                if kind == 'load' and isinstance(p, PtrV) and p.obj == 'HAY':
+                    st.ev('hay-load', inst, p.off, nbytes)
+
+            def call(self, I, st, inst, name, args):
+                d = self.m.dem(name) if name is not None else ''
+                if re.match(r'^_ST_PRIVATE::cl_fast_(lower|upper)\(char\)', d):
+                    # the folded unit as a symbol (which units were *read* is all this pass asks; folding per unit would fork 2^n paths)
+                    return [(st, I.fresh_int(st, 8, 'folded'))]
+                return SearchHooks.call(self, I, st, inst, name, args)
+        I = Interp(m, F, E, XH(m, 'char'))
+        st = State()
+        st.objs['HAY'] = Obj('ext', Lin.const(ns))
+        st.objs['NEEDLE'] = Obj('ext', Lin.const(ns))
+        try:
+            outs = I.run(I.start(f, [PtrV('HAY'), IntV(64, Lin.const(ns), 'u'), PtrV('NEEDLE'), IntV(64, Lin.const(ns), 'u')], st))
+        except Exception as e:
+            und.append('needle size %d: not interpreted exactly (%s)' % (ns, str(e)[:60]))
+            continue
+        nruns += 1
+        for o in outs:
+            s2 = o.st
+            v = o.val
+            if o.kind != 'ret' or not (isinstance(v, PtrV) and v.obj == 'HAY'):
+                continue
+            if any(e[0] == 'widen' for e in s2.events):
+                und.append('needle size %d: a loop was abstracted on a path that reports an occurrence' % ns)
+                continue
+            plo, phi = s2.range(v.off)
+            if plo != phi:
+                und.append('needle size %d: reported position not constant' % ns)
+                continue
+            nfound += 1
+            pos = plo
+            seen = set()
+            exact = True
+            for e in s2.events:
+                if e[0] == 'hit' and e[2] == 'HAY':
+                    if not e[3].t:
+                        seen.add(e[3].c)
+                    else:
+                        k0 = s2.range(e[3])
+                        if k0[0] == k0[1]:
+                            seen.add(k0[0])
+                        else:
+                            exact = False
+                elif e[0] == 'cmp' and isinstance(e[2], PtrV) and e[2].obj == 'HAY' and e[4] is not None:
+                    (a0, a1), (n0, n1) = s2.range(e[2].off), s2.range(e[4])
+                    if a0 == a1 and n0 == n1:
+                        seen |= set(range(a0, a0 + n0))
+                    else:
+                        exact = False
+                elif e[0] == 'hay-load':
+                    a0, a1 = s2.range(e[2])
+                    if a0 == a1:
+                        seen |= set(range(a0, a0 + e[3]))
+                    else:
+                        exact = False
+            if not exact:
+                und.append('needle size %d: a read of the haystack at a position that is not constant on an exact path' % ns)
+                continue
+            blind = [k for k in range(pos, pos + ns) if k not in seen]
+            if blind:
+                probs.append('for a needle of %d units the position %d is reported as an occurrence on a path that never looks at unit %d of the '
+                             'window: a haystack that differs from the needle only there is reported as a match (witness: needle_size = size = %d, '
+                             'the two texts differing in unit %d only)' % (ns, pos, blind[0] - pos, ns, blind[0] - pos))
+                break
+        if probs:
+            break
+    if nfound == 0 and not probs:
+        und.append('no exact path reports an occurrence')
+    verdict(run, 'R07.6', f, probs, und, 'every unit of the reported window is read before an occurrence is reported (%d needle sizes interpreted exactly)' % nruns,
+            'window coverage')
 
 
 def backward_cores(run, m, F, E, L):
